@@ -6,7 +6,9 @@ Import ListNotations.
 Open Scope string_scope.
 
 Definition active (compute check_nans variance : bool) (g : lguard) : bool :=
-  match g with GAlways => true | GCompute => compute | GCheckNans => check_nans | GVarianceThreshold => variance | GOther => true end.
+  match g with GAlways => true | GCompute => compute | GCheckNans => check_nans | GVarianceThreshold => variance
+  | GNotDask => false   (* the analysis concerns dask-backed input *)
+  | GOther => true end.
 Definition fires (compute check_nans variance : bool) (gs : list lguard) : bool := forallb (active compute check_nans variance) gs.
 
 (* the class a site belongs to: the text before the first '.' *)
